@@ -275,6 +275,27 @@ impl<S: Scheme> Session<S> {
         guard(|| S::PC::batch_check(&self.keys.vk, comms, qs, evals, proof, sp, &mut r))
     }
 
+    /// the single-point claim (group `g`, polynomials `order`, claimed `values`) presented to the batch
+    /// verifier as a one-label query set with a one-element proof list
+    pub fn batch_check_group(
+        &self,
+        g: &Group<S::Pt>,
+        order: &[usize],
+        values: &[S::F],
+        proof: &Proof<S>,
+        sp: &mut PoseidonSponge<S::F>,
+        seed: u64,
+    ) -> Out<bool> {
+        let mut qs = BTreeSet::new();
+        let mut ev = BTreeMap::new();
+        for (i, v) in order.iter().zip(values) {
+            qs.insert((self.polys[*i].label().clone(), (g.label.clone(), g.point.clone())));
+            ev.insert((self.polys[*i].label().clone(), g.point.clone()), *v);
+        }
+        let bp: BatchProof<S> = vec![proof.clone()].into();
+        self.batch_check(self.verifier_comms(), &qs, &ev, &bp, sp, seed)
+    }
+
     pub fn verifier_comms(&self) -> Vec<&LabeledCommitment<Comm<S>>> {
         self.perm_v.iter().map(|i| &self.comms[*i]).collect()
     }
